@@ -463,6 +463,77 @@ def _run_late(res, case):
                       [want, MARK.decode(want)], [got, obs['marker']])
 
 
+# ---------------- the BOM rung against every shape of the code unit that follows the mark
+# The sniffer reads the first four bytes: what the first character of the sheet looks like (a low byte 00, a high byte 00, both,
+# a surrogate pair) must not change what the mark says, whoever refers to the sheet.
+
+BOM_MARKS = {'utf-8': (codecs.BOM_UTF8, 'utf-8'), 'utf-16-le': (codecs.BOM_UTF16_LE, 'utf-16-le'), 'utf-16-be': (codecs.BOM_UTF16_BE, 'utf-16-be'),
+             'utf-32-le': (codecs.BOM_UTF32_LE, 'utf-32-le'), 'utf-32-be': (codecs.BOM_UTF32_BE, 'utf-32-be')}
+BOM_FIRST = ['a', '\xe9', '\xff', '\u0100', '\u0400', '\u4e00', '\u4e01', '\uac00', '\uff00', '\U00010000', '\U00010400', '.', '@media all{', '/**/']
+BOM_PARENT = ['text', 'charset-latin', 'transport-koi8', 'none-direct-bytes', 'none-parseUrl']
+BOM_WANT = {'utf-8': 'utf-8', 'utf-16-le': 'utf-16', 'utf-16-be': 'utf-16', 'utf-32-le': 'utf-32', 'utf-32-be': 'utf-32'}
+
+
+def _plain_rules(sheet):
+    return [r.cssText for r in sheet.cssRules if r.type != R.CHARSET_RULE]
+
+
+def _run_bomfirst(res, case):
+    mark, first, parent = case['mark'], case['first'], case['parent']
+    res.evaluations += 1
+    res.nontrivial += 1
+    res.clauses['C08.ladder.bom-first-char'] += 1
+    guard.pristine()
+    bom, enc = BOM_MARKS[mark]
+    body = first + ('x{}}' if first[0] == '@' else 'x{}') + '\n.m{content:"\xe9"}'
+    data = bom + body.encode(enc)
+    table = {'http://x/b.css': (None, data), TOP_HREF: (None, data)}
+
+    def fetch(url):
+        return table.get(url)
+
+    try:
+        with guard.watchdog(WD):
+            parser = cssutils.CSSParser(fetcher=fetch)
+            if parent == 'none-direct-bytes':
+                sheet = parser.parseString(data, href=TOP_HREF)
+            elif parent == 'none-parseUrl':
+                sheet = parser.parseUrl(TOP_HREF)
+            else:
+                if parent == 'text':
+                    top = parser.parseString('@import "b.css";', href=TOP_HREF)
+                elif parent == 'charset-latin':
+                    top = parser.parseString(b'@charset "iso-8859-1";@import "b.css";', href=TOP_HREF)
+                else:
+                    table[TOP_HREF] = ('koi8-r', b'@import "b.css";')
+                    top = parser.parseUrl(TOP_HREF)
+                sheet = top.cssRules[-1].styleSheet
+            obs = None
+            if sheet is not None:
+                marks = [r.style.getPropertyValue('content') for r in sheet.cssRules if r.type == R.STYLE_RULE and r.selectorText == '.m']
+                obs = [ref.norm(sheet.encoding), marks[0] if marks else None, _plain_rules(sheet)]
+    except guard.Timeout:
+        res.violation('C08.terminates', f'timeout|bomfirst|{mark}', case, 'answer', 'timeout')
+        return
+    except Exception as e:
+        res.violation('C08.noraise', f'{guard.crash_site(e)}|bomfirst|{mark}', case, 'a sheet', repr(e)[:300])
+        return
+    res.validated += 1
+    guard.pristine()
+    want = [ref.norm(BOM_WANT[mark]), '"\xe9"', _plain_rules(cssutils.parseString(body))]  # (the same text, handed over decoded)
+    res.outcomes.add(h64(['bomfirst', mark, parent, obs]))
+    if obs is None:
+        res.violation('C08.ladder', f'bom-sheet-not-loaded|{mark}|{parent}', case, want, None)
+    elif obs[0] != want[0] or obs[1] != want[1]:
+        res.violation('C08.ladder', f'bom-not-honoured|{mark}|{parent}|observed={obs[0]}', case, want, obs)
+    elif obs[2] != want[2]:
+        res.violation('C08.ladder', f'bom-sheet-content|{mark}|{parent}', case, want, obs)
+
+
+def _bomfirst_cases():
+    return [{'kind': 'bomfirst', 'mark': m, 'first': f, 'parent': p} for m in BOM_MARKS for f in BOM_FIRST for p in BOM_PARENT]
+
+
 # ----------------------------------------------------------------------------------------
 # Part 2: serialised bytes
 
@@ -844,6 +915,7 @@ def plan(tier):
             for ri in range(len(ROWS)):
                 shards.append(['ladder', override, top, ri])
     shards.append(['late'])
+    shards.append(['bomfirst'])
     for pos in POSITIONS:
         for target in _targets(tier):
             shards.append(['bytes', pos, target])
@@ -870,6 +942,10 @@ def run_shard(shard, tier, seed):
                 for child in LATE_CHILD:
                     _run_late(res, {'kind': 'late', 'top': top, 'how': how, 'child': child})
         res.sample({'kind': 'late', 'top': LATE_TOPS[1], 'how': LATE_HOW[1], 'child': LATE_CHILD[0]})
+    elif kind == 'bomfirst':
+        for case in _bomfirst_cases():
+            _run_bomfirst(res, case)
+        res.sample(_bomfirst_cases()[7])
     elif kind == 'bytes':
         _, pos, target = shard
         stringish = POSITIONS[pos][1]
@@ -901,6 +977,8 @@ def replay(case, tier, seed):
     res = Result(seed)
     if case['kind'] == 'late':
         _run_late(res, case)
+    elif case['kind'] == 'bomfirst':
+        _run_bomfirst(res, case)
     elif case['kind'] == 'chain':
         _run_chain(res, case)
     elif case['kind'] == 'bytes':
